@@ -611,6 +611,7 @@ namespace c15
       c.check(space.get_num_dofs() == expect, kp + " count.global", [&]{ return "refined mesh: get_num_dofs()=" + std::to_string(space.get_num_dofs()) + " expected " + std::to_string(expect); });
       check_reuse(space, ncells);
       check_functional_reuse(space);
+      check_config_subsets(space, ncells);
       c.count("refined_cells", ncells);
     }
 
@@ -677,7 +678,7 @@ namespace c15
       // ---------------------------------------------------------------- object reuse and reduced configurations
       if(ncells >= 2) check_reuse(space, ncells);
       check_functional_reuse(space);
-      check_config_subsets(space, ncells);
+      if(ncells == 1) check_config_subsets(space, ncells); // multi-cell: on the refined meshes (run_refined)
 
       const int npts = Desc_::template degree<Shape_>() + 1 + opt.lattice_extra;
       const auto lattice = ref_lattice<Shape_>(npts);
